@@ -716,8 +716,8 @@ impl WriterSet {
                 panic!("failed to insert stream index: {err}");
             }
         }
-        self.sync_tx.send_replace(write_offset);
-
+        // observed just before the waiters are woken, so that an observer's clock orders it
+        // before any acknowledgement it causes
         #[cfg(sierradb_verif)]
         verif_hooks::point(
             "wtp.published",
@@ -726,6 +726,8 @@ impl WriterSet {
             write_offset,
             0,
         );
+
+        self.sync_tx.send_replace(write_offset);
 
         Ok(())
     }
